@@ -11,6 +11,7 @@ def tasks(run):
             out.append(('dimred', (name, seed, 'logdet%d' % (1 + i % 3))))
         if i % 5 == 0:
             out.append(('dimred', (name, seed, 'trace', 1e-2)))
+    out += [('dimred', ('T_scaled', i, h)) for i in range(2) for h in ('trace', 'logdet1')]
     return out
 
 
